@@ -13,7 +13,7 @@ starts with exactly that qualifier (`custom_used`, `type_custom_used`), a refere
 qualified under the empty qualifier only when it lives in another named schema
 (`reftable_other_schema_only`), and the scope check rejects schema additions/drops, deferred schema
 modifications and every change set whose TABLE changes span two schemas, in any position and order
-(`scope_rejects_*`). The schema of a stand-alone enum change is not looked at: `object_schema_not_counted`
+(`scope_rejects_*`); conversely a change set of any length whose table changes all lie in one schema is accepted, for every qualifier and mode (`scope_accepts_one_schema`). The schema of a stand-alone enum change is not looked at: `object_schema_not_counted`
 (known finding).
 
 PARTIAL: that every identifier-printing site of the planners goes through these functions is not
@@ -328,5 +328,70 @@ theorem whole_set_implies_per_change (q : Qualifier) (ip : Bool) (cs : List Scop
       simp [checkScope, scopeGo, this, hs, dedup]
   · simp [checkScope, scopeGo, dedup]
   · simp [checkScope, scopeGo, dedup]
+
+/-! ### no false refusal -/
+
+/-- a change that stays inside schema `s` (or is not looked at by the scope check). -/
+def Within (s : Text) : ScopeCh → Prop
+  | .table n => n = s
+  | .object _ => True
+  | .other => True
+  | _ => False
+
+theorem scopeGo_within (scope s : Text) (ip : Bool) : ∀ (cs : List ScopeCh) (names : List Text),
+    (∀ c ∈ cs, Within s c) → (∀ x ∈ names, x = s) →
+    ∃ out, scopeGo scope ip cs names = some out ∧ ∀ x ∈ out, x = s := by
+  intro cs
+  induction cs with
+  | nil => intro names _ hn; exact ⟨names, rfl, hn⟩
+  | cons c rest ih =>
+    intro names hc hn
+    have hr : ∀ c ∈ rest, Within s c := fun c h => hc c (List.mem_cons_of_mem _ h)
+    have h0 := hc c (List.mem_cons_self ..)
+    cases c with
+    | addSchema => exact absurd h0 (by simp [Within])
+    | dropSchema => exact absurd h0 (by simp [Within])
+    | modifySchema n => exact absurd h0 (by simp [Within])
+    | table n =>
+      simp only [scopeGo]
+      apply ih _ hr
+      split
+      · exact hn
+      · intro x hx
+        rcases List.mem_append.mp hx with h | h
+        · exact hn x h
+        · simp at h; rw [h]; exact h0
+    | object n => simp only [scopeGo]; exact ih names hr hn
+    | other => simp only [scopeGo]; exact ih names hr hn
+
+theorem dedup_all_eq (s : Text) : ∀ (l acc : List Text), (acc = [] ∨ acc = [s]) → (∀ x ∈ l, x = s) →
+    (l.foldl (fun acc x => if acc.contains x then acc else acc ++ [x]) acc = [] ∨
+     l.foldl (fun acc x => if acc.contains x then acc else acc ++ [x]) acc = [s]) := by
+  intro l
+  induction l with
+  | nil => intro acc h _; exact h
+  | cons x xs ih =>
+    intro acc hacc hl
+    have hx : x = s := hl x (List.mem_cons_self ..)
+    subst hx
+    simp only [List.foldl_cons]
+    apply ih _ _ (fun y hy => hl y (List.mem_cons_of_mem _ hy))
+    rcases hacc with h | h
+    · right; subst h; simp
+    · right; subst h; simp
+
+/-- **scope_accepts_one_schema** (no false refusal): a change set of any length whose table changes all
+lie in one schema — together with any enum / other changes — passes the scope check, for every qualifier
+and mode. -/
+theorem scope_accepts_one_schema (q : Qualifier) (ip : Bool) (s : Text) (cs : List ScopeCh)
+    (h : ∀ c ∈ cs, Within s c) : checkScope q ip cs = true := by
+  unfold checkScope
+  obtain ⟨out, ho, hall⟩ := scopeGo_within (q.getD []) s ip cs [] h (by simp)
+  rw [ho]
+  simp only [decide_eq_true_eq]
+  unfold dedup
+  rcases dedup_all_eq s out [] (Or.inl rfl) hall with h | h <;> rw [h] <;> simp
+
+example : checkScope none false [.table ['a'], .object ['b'], .other, .table ['a']] = true := by decide
 
 end Props.C16
